@@ -128,6 +128,7 @@ var (
 // rrset: one RRSet; record i has TTL TTLs[i]. HTTPS records additionally carry an ALPN list.
 type rrset struct {
 	TTLs []uint32   `json:"ttls"`
+	Prio []uint16   `json:"priorities,omitempty"` // HTTPS: distinct priorities in ZONE order, which is in general not ascending
 	ALPN [][]string `json:"alpn,omitempty"`
 	NDA  []bool     `json:"no_default_alpn,omitempty"`
 }
@@ -144,17 +145,19 @@ func (z zoneSpec) clone() zoneSpec {
 	return out
 }
 
-func echTag(v int, name string, i int) string { return fmt.Sprintf("v=%d;%s;%d", v, name, i) }
+// echTag: ech parameter of the HTTPS record of name with priority prio at data version v.
+func echTag(v int, name string, prio int) string { return fmt.Sprintf("v=%d;%s;p%d", v, name, prio) }
 
-// records builds the universe of data version v: address i of name is dohfake.AutoAddr(name, v, i), HTTPS record i
-// (priority i+1, service mode, owner as target) carries "v=<v>;<name>;<i>" as its ech parameter.
+// records builds the universe of data version v: address i of name is dohfake.AutoAddr(name, v, i); the HTTPS records
+// (service mode, owner as target) have distinct priorities, are listed in the zone (and hence in the answer) in an
+// order that is generally NOT ascending, and carry "v=<v>;<name>;p<priority>" as their ech parameter.
 func (z zoneSpec) records(v int) map[string][]dohfake.RR {
 	out := map[string][]dohfake.RR{}
 	for name, sets := range z {
 		var rrs []dohfake.RR
 		for i, ttl := range sets[kHTTPS].TTLs {
-			rrs = append(rrs, dohfake.Svc(name, dohfake.HTTPS{Priority: uint16(i + 1), ALPN: sets[kHTTPS].ALPN[i],
-				NoDefaultALPN: sets[kHTTPS].NDA[i], ECH: []byte(echTag(v, name, i))}, ttl))
+			rrs = append(rrs, dohfake.Svc(name, dohfake.HTTPS{Priority: sets[kHTTPS].Prio[i], ALPN: sets[kHTTPS].ALPN[i],
+				NoDefaultALPN: sets[kHTTPS].NDA[i], ECH: []byte(echTag(v, name, int(sets[kHTTPS].Prio[i])))}, ttl))
 		}
 		for i, ttl := range sets[kA].TTLs {
 			rrs = append(rrs, dohfake.Addr(name, dohfake.AutoAddr(name, v, i, false), ttl))
@@ -208,40 +211,55 @@ func minPosTTL(t []uint32) uint32 {
 // observe maps a result to the data version each of its three RRSets belongs to. endOf(v) tells which name the
 // data of the looked-up name comes from at version v (the name itself, or the end of its CNAME chain) and that
 // name's RRSets (nil = no such version). A set that is not exactly the RRSet of one version is verBad.
-func observe(name string, res ech.ResolveResult, endOf func(v int) (owner string, sets *[3]rrset)) (ver [3]int, problem string) {
+func observe(name string, res ech.ResolveResult, endOf func(v int) (owner string, sets *[3]rrset)) (ver [3]int, problem string, class [3]string) {
 	ver = [3]int{verEmpty, verEmpty, verEmpty}
-	bad := func(k int, f string, a ...any) {
+	bad := func(k int, cls, f string, a ...any) {
 		ver[k] = verBad
+		if class[k] == "" {
+			class[k] = cls
+		}
 		if problem == "" {
 			problem = qnames[k] + ": " + fmt.Sprintf(f, a...)
 		}
 	}
-	// HTTPS
+	// HTTPS: exactly the records of ONE version of the name the lookup leads to, each once, in ascending priority
+	seen := map[int]bool{}
 	for i, h := range res.HTTPS {
-		var v, idx int
+		var v, prio int
 		parts := strings.Split(string(h.ECH), ";")
-		if len(parts) == 3 && strings.HasPrefix(parts[0], "v=") {
+		if len(parts) == 3 && strings.HasPrefix(parts[0], "v=") && strings.HasPrefix(parts[2], "p") {
 			v, _ = strconv.Atoi(parts[0][2:])
-			idx, _ = strconv.Atoi(parts[2])
+			prio, _ = strconv.Atoi(parts[2][1:])
 		}
 		owner, sets := endOf(v)
-		if len(parts) != 3 || sets == nil || string(h.ECH) != echTag(v, owner, idx) {
-			bad(kHTTPS, "record %d carries ech %q which is not a record of the name %s leads to at that version", i, h.ECH, name)
+		if len(parts) != 3 || sets == nil || string(h.ECH) != echTag(v, owner, prio) {
+			bad(kHTTPS, "unknown-record", "record %d carries ech %q which is not a record of the name %s leads to at that version", i, h.ECH, name)
 			break
 		}
 		if i == 0 {
 			ver[kHTTPS] = v
 		}
+		zi := -1 // index of that priority in the zone's list
+		for j, p := range sets[kHTTPS].Prio {
+			if int(p) == prio {
+				zi = j
+			}
+		}
 		switch {
 		case v != ver[kHTTPS]:
-			bad(kHTTPS, "records of versions %d and %d in one result", ver[kHTTPS], v)
-		case len(sets[kHTTPS].TTLs) != len(res.HTTPS):
-			bad(kHTTPS, "%d records, version %d has another number", len(res.HTTPS), v)
-		case idx != i || int(h.Priority) != i+1:
-			bad(kHTTPS, "record %d is record %d (priority %d) of version %d", i, idx, h.Priority, v)
-		case fmt.Sprint(h.ALPN) != fmt.Sprint(sets[kHTTPS].ALPN[i]) || h.NoDefaultALPN != sets[kHTTPS].NDA[i]:
-			bad(kHTTPS, "record %d has alpn %q no-default-alpn=%v, the zone has %q %v", i, h.ALPN, h.NoDefaultALPN, sets[kHTTPS].ALPN[i], sets[kHTTPS].NDA[i])
+			bad(kHTTPS, "records-of-two-versions", "records of versions %d and %d in one result", ver[kHTTPS], v)
+		case int(h.Priority) != prio || zi < 0:
+			bad(kHTTPS, "unknown-record", "record %d has priority %d but the ech of the priority %d record of version %d", i, h.Priority, prio, v)
+		case seen[prio]:
+			bad(kHTTPS, "record-duplicated", "the priority %d record of version %d appears twice (priorities returned: %v, zone: %v)", prio, v, prios(res), sets[kHTTPS].Prio)
+		case i > 0 && res.HTTPS[i-1].Priority > h.Priority:
+			bad(kHTTPS, "not-in-priority-order", "priorities returned %v are not ascending (zone order: %v)", prios(res), sets[kHTTPS].Prio)
+		case fmt.Sprint(h.ALPN) != fmt.Sprint(sets[kHTTPS].ALPN[zi]) || h.NoDefaultALPN != sets[kHTTPS].NDA[zi]:
+			bad(kHTTPS, "alpn-differs", "the priority %d record has alpn %q no-default-alpn=%v, the zone has %q %v", prio, h.ALPN, h.NoDefaultALPN, sets[kHTTPS].ALPN[zi], sets[kHTTPS].NDA[zi])
+		case i == len(res.HTTPS)-1 && len(sets[kHTTPS].TTLs) != len(res.HTTPS):
+			bad(kHTTPS, "record-missing", "%d records with priorities %v, version %d has %v", len(res.HTTPS), prios(res), v, sets[kHTTPS].Prio)
 		}
+		seen[prio] = true
 		if ver[kHTTPS] == verBad {
 			break
 		}
@@ -251,7 +269,7 @@ func observe(name string, res ech.ResolveResult, endOf func(v int) (owner string
 	for _, ip := range res.Address {
 		a, ok := netip.AddrFromSlice(ip)
 		if !ok {
-			bad(kA, "address %v is not an IP", ip)
+			bad(kA, "not-one-rrset", "address %v is not an IP", ip)
 			continue
 		}
 		if a = a.Unmap(); a.Is4() {
@@ -267,7 +285,7 @@ func observe(name string, res ech.ResolveResult, endOf func(v int) (owner string
 		v := dohfake.AddrVersion(got[k][0])
 		owner, sets := endOf(v)
 		if sets == nil || len(sets[k].TTLs) != len(got[k]) {
-			bad(k, "%d addresses %v are not the RRSet of version %d", len(got[k]), got[k], v)
+			bad(k, "not-one-rrset", "%d addresses %v are not the RRSet of version %d", len(got[k]), got[k], v)
 			continue
 		}
 		want := map[netip.Addr]bool{}
@@ -276,7 +294,7 @@ func observe(name string, res ech.ResolveResult, endOf func(v int) (owner string
 		}
 		for _, a := range got[k] {
 			if !want[a] {
-				bad(k, "address %s is not an address of %s (where %s leads) at version %d", a, owner, name, v)
+				bad(k, "not-one-rrset", "address %s is not an address of %s (where %s leads) at version %d", a, owner, name, v)
 			}
 			delete(want, a)
 		}
@@ -284,7 +302,15 @@ func observe(name string, res ech.ResolveResult, endOf func(v int) (owner string
 			ver[k] = v
 		}
 	}
-	return ver, problem
+	return ver, problem, class
+}
+
+func prios(res ech.ResolveResult) []uint16 {
+	var out []uint16
+	for _, h := range res.HTTPS {
+		out = append(out, h.Priority)
+	}
+	return out
 }
 
 // ---- generators shared by the parts --------------------------------------------------------------------------
@@ -304,6 +330,18 @@ func genALPN(rng *mrand.Rand, n int) []string {
 // genSet draws one RRSet. ttl draws one TTL; zeroMix in {-1: as drawn, 0: force all-positive, 1: force a {0,k} mix}.
 func genSet(rng *mrand.Rand, k, n int, ttl func() uint32, minALPN int) rrset {
 	var s rrset
+	if k == kHTTPS && n > 0 {
+		// distinct priorities from 1..9 in a random zone order; when that happens to be ascending it is turned
+		// around, so that a set of two or more records is never listed in priority order
+		for _, p := range rng.Perm(9)[:n] {
+			s.Prio = append(s.Prio, uint16(p+1))
+		}
+		if sort.SliceIsSorted(s.Prio, func(i, j int) bool { return s.Prio[i] < s.Prio[j] }) {
+			for i, j := 0, n-1; i < j; i, j = i+1, j-1 {
+				s.Prio[i], s.Prio[j] = s.Prio[j], s.Prio[i]
+			}
+		}
+	}
 	for i := 0; i < n; i++ {
 		s.TTLs = append(s.TTLs, ttl())
 		if k == kHTTPS {
@@ -319,7 +357,7 @@ func genSet(rng *mrand.Rand, k, n int, ttl func() uint32, minALPN int) rrset {
 
 const (
 	errNone     = ""
-	errUpstream = "upstream-failure" // what the failure switch of the fake server produces
+	errUpstream = "upstream-failure" // what the failure switch / a forced response code of the fake server produces
 	errFixture  = "transport"        // sockets, cancelled watchdog context: never a verdict
 	errOther    = "other"
 )
@@ -328,7 +366,7 @@ func classifyErr(err error) string {
 	if err == nil {
 		return errNone
 	}
-	if errors.Is(err, ech.ErrServerFailure) || strings.Contains(err.Error(), "status code 400") {
+	if errors.Is(err, ech.ErrServerFailure) || errors.Is(err, ech.ErrQueryRefused) || strings.Contains(err.Error(), "status code 400") || strings.Contains(err.Error(), "response code ") {
 		return errUpstream
 	}
 	var ue *url.Error
